@@ -270,6 +270,9 @@ func (k vkCase) key() string {
 
 var vkSeq int
 
+// vkLastWarmed: whether the last vkClientCase found an admitted client to warm the cache with.
+var vkLastWarmed bool
+
 func vkFreshName() string {
 	vkSeq++
 	return fmt.Sprintf("n%d.c17.example.org.", vkSeq)
@@ -301,6 +304,7 @@ func vkClientCase(vp *vkPipe, l vkList, srcs []vkSrc, src vkSrc, tr, en string) 
 			break
 		}
 	}
+	vkLastWarmed = warmed
 	member := l.member(src.addr)
 	t, n, e := vp.serve(tr, en, src.ip, q)
 	if e != "" {
@@ -550,12 +554,18 @@ func TestVerifC17Pipeline(t *testing.T) {
 							return
 						}
 						c.Violation(k.key(), k.key()+": "+v, k)
+						if c.NumViolations() >= 3 {
+							vp.close()
+							return
+						}
 						continue
 					}
 					if l.member(src.addr) {
 						c.Outcome("allowed:" + tr + "/" + en)
-					} else {
+					} else if vkLastWarmed {
 						c.Outcome("denied-after-cache-warm:" + tr + "/" + en)
+					} else {
+						c.Outcome("denied-cold:" + tr + "/" + en)
 					}
 				}
 			}
